@@ -13,19 +13,20 @@ Definition faultable (o : op) : bool :=
 Definition pkce_tag : string := "tokens_issued_after_notfound_fault_on_pkce_lookup".
 
 Definition step_ok (e : fenv) (s : state) (o : op) (s' : state) (ob : obs) (calls : list call) : Prop :=
-  (o_err ob = "PANIC" \/ mon_c (fe_tx e) calls = None) /\
+  mon_c (fe_tx e) calls = None /\
   mon_serial o calls ob = None /\
   (mon_b o calls ob = None \/ mon_b o calls ob = Some pkce_tag) /\
   (rolled_back (fe_tx e) calls = true -> st s' = st s /\ log s' = log s) /\
   (succeeded ob = false -> log s' = log s) /\
   clients s' = clients s /\ now s' = now s /\
-  store_le (next_key s) (st s) (st s').
+  store_le (next_key s) (st s) (st s') /\
+  panicked ob = false.
 
 Theorem fstep_ok e cfg s o :
   faultable o = true -> let '(s', ob, calls) := fstep e cfg s o in step_ok e s o s' ob calls.
 Proof.
   assert (K : forall (r : fstate * obs), flow_okp e s o r -> step_ok e s o (f_s (fst r)) (snd r) (f_calls (fst r))).
-  { intros r (H1 & H2 & H3 & H4 & H5 & H6 & H7 & H8 & _). repeat split; auto; try (apply H4; assumption).
+  { intros r (H1 & H2 & H3 & H4 & H5 & H6 & H7 & H8 & _ & H10). repeat split; auto; try (apply H4; assumption).
     all: try (match goal with Hk : _ < _ |- _ => destruct (H8 _ Hk) as [? [? [? [? ?]]]]; assumption end). }
   destruct o; try discriminate; intros _; cbn [fstep]; apply K.
   - apply fredeem_ok. - apply frefresh_ok. - apply frevoke_ok. - apply fpassword_ok.
@@ -84,16 +85,25 @@ Qed.
 Theorem transaction_trace_wellformed e cfg s o :
   faultable o = true ->
   let '(s', ob, calls) := fstep e cfg s o in
-  o_err ob <> "PANIC" ->
   tx_wf calls = true /\ (fe_tx e = false -> forall c, In c calls -> is_tx_meth (fst c) = false).
 Proof.
   intros Hf. pose proof (fstep_ok e cfg s o Hf) as H. destruct (fstep e cfg s o) as [[s' ob] calls].
-  destruct H as (Hc & _). intros Hp. destruct Hc as [Hc|Hc]; [contradiction|]. unfold mon_c in Hc.
+  destruct H as (Hc & _). unfold mon_c in Hc.
   destruct (tx_wf calls); [|discriminate]. split; [reflexivity|].
   intros Htx c Hin. rewrite Htx in Hc. cbn [negb andb] in Hc. unfold call in *.
   destruct (existsb (fun c0 : meth * rclass => is_tx_meth (fst c0)) calls) eqn:E; [discriminate|].
   destruct (is_tx_meth (fst c)) eqn:Ec; [|reflexivity].
   assert (existsb (fun c0 : meth * rclass => is_tx_meth (fst c0)) calls = true) by (apply existsb_exists; eauto). congruence.
+Qed.
+
+(* every request is answered: no execution of the model ends in the panic observation (after 8ec4c3a the refresh handler
+   refuses a reuse report that comes without the stored request) *)
+Theorem every_request_is_answered e cfg s o :
+  faultable o = true ->
+  let '(s', ob, calls) := fstep e cfg s o in o_err ob <> "PANIC".
+Proof.
+  intros Hf. pose proof (fstep_ok e cfg s o Hf) as H. destruct (fstep e cfg s o) as [[s' ob] calls].
+  destruct H as (_ & _ & _ & _ & _ & _ & _ & _ & Hp). unfold panicked in Hp. now apply String.eqb_neq.
 Qed.
 
 (* ------------------------------------------------------------------ (d) a rolled-back transaction changes nothing *)
@@ -127,7 +137,7 @@ Theorem fail_closed e cfg s o :
   (o_err ob <> "" -> log s' = log s /\ forall p, key_of s' p = key_of s p).
 Proof.
   intros Hf. pose proof (fstep_ok e cfg s o Hf) as H. destruct (fstep e cfg s o) as [[s' ob] calls].
-  destruct H as (_ & _ & _ & _ & Hl & _ & _ & Hle). split; [exact Hle|].
+  destruct H as (_ & _ & _ & _ & Hl & _ & _ & Hle & _). split; [exact Hle|].
   intros He. assert (Hlog : log s' = log s) by (apply Hl; unfold succeeded; now apply String.eqb_neq).
   split; [exact Hlog|]. intros p. unfold key_of. now rewrite Hlog.
 Qed.
